@@ -1158,14 +1158,15 @@ Proof.
                      (fst (walk_blocks (walk_fuel st) algo (indexed st) cs0 (rev (skipn (Z.to_nat (c_immovable c)) (indexed st))))) new /\
                 snd (walk_blocks (walk_fuel st) algo (indexed st) cs0 (rev (skipn (Z.to_nat (c_immovable c)) (indexed st)))) <> WPanic PCounters).
   { intros algo. unfold indexed in *.
+    assert (H1 : forall x, In x (rev (skipn (Z.to_nat (c_immovable c)) (indexed_from 0 (map fst (d_blocks st))))) ->
+                           In x (indexed_from 0 (map fst (d_blocks st)))) by (intros x; apply srcs_in).
+    assert (H3 : forall (m : move) (x : Z * Z), In m [] -> In x (rev (skipn (Z.to_nat (c_immovable c)) (indexed_from 0 (map fst (d_blocks st))))) ->
+                                                fst x < m_srcidx m) by (intros m x []).
     destruct (walk_blocks_spec st (c_moves c) p (map fst (d_blocks st)) algo (walk_fuel st)
-                (rev (skipn (Z.to_nat (c_immovable c)) (indexed_from 0 (map fst (d_blocks st))))) cs0 [] HC0)
+                (rev (skipn (Z.to_nat (c_immovable c)) (indexed_from 0 (map fst (d_blocks st))))) cs0 [] HC0
+                H1 (srcs_desc _ _ _) H3 Hrun)
       as (add & R1 & R2 & _).
-    - intros x. apply srcs_in.
-    - apply srcs_desc.
-    - intros m x [].
-    - exact Hrun.
-    - exists ([] ++ add). auto. }
+    exists ([] ++ add). auto. }
   assert (Hnil : exists new, CInv st (c_moves c) p (indexed st) (fst (cs0, WCont)) new /\ snd (cs0, WCont) <> WPanic PCounters).
   { exists []. split; [exact HC0|discriminate]. }
   destruct (1 <? zlen (d_blocks st)).
@@ -1194,7 +1195,7 @@ Proof.
   inversion Hnd as [|? ? Hx Hl]; subst. constructor.
   - intros Hin. apply in_map_iff in Hin. destruct Hin as (y & Hy & Hin). apply Hx.
     rewrite <- (Hfg y x); [apply in_map; exact Hin|right; exact Hin|left; reflexivity|exact Hy].
-  - apply IH; auto. intros a b Ha Hb. apply Hfg; right; auto.
+  - apply IH; [exact Hl|]. intros a b Ha Hb. apply Hfg; right; auto.
 Qed.
 
 Section CollectTheorems.
@@ -1213,7 +1214,7 @@ Section CollectTheorems.
   Proof.
     destruct (collect_moves_inv st c p HW (pass_init_running mb ma Hmb Hma)) as (new & HC & Hnp).
     rewrite Hfresh in HC. exists new. split; [exact HC|]. split; [exact Hnp|].
-    rewrite (ci_moves _ _ _ _ _ _ HC). reflexivity.
+    exact (ci_moves _ _ _ _ _ _ HC).
   Qed.
 
   (* C15 (1): the moves of a pass stay within both limits, the counters never panic, and the
@@ -1278,3 +1279,611 @@ Section CollectTheorems.
     eapply Forall_impl; [|apply (ci_ok _ _ _ _ _ _ HC)]. intros m. apply move_ok_reserved. apply (ci_ext _ _ _ _ _ _ HC).
   Qed.
 End CollectTheorems.
+
+(* ================================================================== 6. between collect and complete *)
+
+(* C07 (5): both ends of a pending move are taken regions of their blocks' metadata, of the
+   move's size, owned by two different allocation objects, and they do not overlap.  (Inv1 of
+   the TLSF model makes all taken regions of a block pairwise disjoint, so no later allocation
+   can be placed on either of them while they stay taken.) *)
+Theorem both_ends_reserved st m :
+  WF st -> reserved st m ->
+  exists bs bd,
+    holds st (m_srcblk m) (m_srcoff m) bs /\ b_size bs = m_size m /\
+    holds st (m_dstblk m) (m_dstoff m) bd /\ b_size bd = m_size m /\
+    m_src m <> m_tmp m /\
+    (forall s e, entry st s = Some e -> u_blk e = m_srcblk m -> u_off e = m_srcoff m -> s = m_src m) /\
+    (forall s e, entry st s = Some e -> u_blk e = m_dstblk m -> u_off e = m_dstoff m -> s = m_tmp m) /\
+    (m_srcblk m = m_dstblk m ->
+     m_srcoff m + m_size m <= m_dstoff m \/ m_dstoff m + m_size m <= m_srcoff m).
+Proof.
+  intros HW ((es & S1 & S2 & S3 & S4 & S5) & (et & T1 & T2 & T3 & T4 & T5)).
+  destruct (wf_own _ HW _ _ S1) as ((bs & Hs & Hss & _) & _).
+  destruct (wf_own _ HW _ _ T1) as ((bd & Hd & Hds & _) & _).
+  rewrite S3, S4 in Hs. rewrite T3, T4 in Hd.
+  assert (Hne : m_src m <> m_tmp m).
+  { intros Heq. rewrite Heq in S1. rewrite S1 in T1. injection T1 as <-. congruence. }
+  exists bs, bd. split; [exact Hs|]. split; [congruence|]. split; [exact Hd|]. split; [congruence|].
+  split; [exact Hne|]. split; [|split].
+  - intros s e He Hb Ho. eapply (wf_inj _ HW); eauto; congruence.
+  - intros s e He Hb Ho. eapply (wf_inj _ HW); eauto; congruence.
+  - intros Hsame. destruct Hs as (t & F1 & I1 & O1). destruct Hd as (t' & F2 & I2 & O2).
+    rewrite Hsame in F1. rewrite F1 in F2. injection F2 as <-.
+    destruct (wb_tinv _ (wf_b _ HW) _ _ F1) as ((Hinv & _) & _).
+    destruct (inv1_live_sound _ Hinv _ I1) as (_ & _ & _ & _ & _ & Hdisj).
+    assert (Hbne : bs <> bd).
+    { intros ->. apply Hne. eapply (wf_inj _ HW); eauto; congruence. }
+    specialize (Hdisj _ I2 Hbne). rewrite O1, O2, Hss, Hds, S5, T5 in Hdisj. exact Hdisj.
+Qed.
+
+Lemma reserved_ext st st' m : ext st st' -> reserved st m -> reserved st' m.
+Proof.
+  intros He ((es & S1 & S) & (et & T1 & T)). split.
+  - exists es. split; [eapply ext_entry; eauto|exact S].
+  - exists et. split; [eapply ext_entry; eauto|exact T].
+Qed.
+
+(* the caller's own operations between the two halves of a pass keep the reservation *)
+Lemma user_alloc_keeps_reserved st id size align kind tag st' r m :
+  WF st -> user_alloc st id size align kind tag = (st', r) -> reserved st m -> reserved st' m.
+Proof. intros HW Hu. apply reserved_ext. eapply user_alloc_wf; eauto. Qed.
+
+Lemma free_keeps_reserved st s st' k m :
+  WF st -> free_slot st s = (st', k) -> s <> m_src m -> s <> m_tmp m -> reserved st m -> reserved st' m.
+Proof.
+  intros HW Hf H1 H2 Hr. destruct k.
+  - destruct (free_slot_ok _ _ _ HW Hf) as (_ & _ & Hoth & _).
+    destruct Hr as ((es & S1 & S) & (et & T1 & T)). split.
+    + exists es. rewrite Hoth by auto. auto.
+    + exists et. rewrite Hoth by auto. auto.
+  - rewrite (free_slot_fail _ _ _ _ Hf); [exact Hr|discriminate].
+  - rewrite (free_slot_fail _ _ _ _ Hf); [exact Hr|discriminate].
+  - rewrite (free_slot_fail _ _ _ _ Hf); [exact Hr|discriminate].
+Qed.
+
+(* ================================================================== 7. completing a pass *)
+
+Lemma step_setud_spec t h tag t' :
+  TInv t -> g_g (t_gran t) = 1 -> set_user_data t h tag = Some t' ->
+  TInv t' /\ g_g (t_gran t') = 1 /\
+  exists l1 b l2, live t = l1 ++ b :: l2 /\ b_off b = h /\ live t' = l1 ++ with_tag b tag :: l2.
+Proof.
+  intros HT Hg Hs. pose proof (step_preserves t (OSetUD h tag) HT I) as Hst. cbn [step] in Hst. rewrite Hs in Hst.
+  cbn [fst snd live_effect o_kind out] in Hst. destruct Hst as (HT' & Hle & _).
+  split; [exact HT'|]. split; [|exact Hle].
+  destruct HT as (Hinv & _). destruct (set_user_data_spec _ _ _ _ Hinv Hs) as (_ & Hgr & _). rewrite Hgr. exact Hg.
+Qed.
+
+(* set_ud on the state: the block list afterwards *)
+Lemma set_ud_ok st id off tag st' :
+  WFB (d_blocks st) -> set_ud st id off tag = (st', ROk) ->
+  exists b0, holds st id off b0 /\ WFB (d_blocks st') /\ st' = set_blocks st (d_blocks st') /\
+    map fst (d_blocks st') = map fst (d_blocks st) /\
+    forall id' off' b, holds st' id' off' b <->
+      (id' = id /\ off' = off /\ b = with_tag b0 tag) \/ (holds st id' off' b /\ ~ (id' = id /\ off' = off)).
+Proof.
+  intros HB. unfold set_ud. destruct (find_id id (d_blocks st)) as [t|] eqn:Hf; [|discriminate].
+  destruct (set_user_data t off tag) as [t'|] eqn:Hs; [|discriminate]. intros H; injection H as <-.
+  destruct (wb_tinv _ HB _ _ Hf) as (HT & Hg).
+  destruct (step_setud_spec _ _ _ _ HT Hg Hs) as (HT' & Hg' & l1 & b0 & l2 & Hl & Hb & Hl').
+  exists b0. split.
+  { exists t. split; [exact Hf|]. split; [rewrite Hl; apply in_or_app; right; left; reflexivity|exact Hb]. }
+  split; [eapply wfb_set; eauto|]. split; [reflexivity|]. split; [apply set_id_ids|].
+  intros id' off' b. unfold holds, set_block; cbn [set_blocks d_blocks]. rewrite <- Hb.
+  eapply holdsb_tag; eauto.
+Qed.
+
+(* swapBlockAllocation as a whole: two allocation objects of equal size exchange their regions *)
+Lemma wf_exchange st bl1 bl2 s1 s2 e1 e2 b1 b2 :
+  WF st -> s1 <> s2 -> entry st s1 = Some e1 -> entry st s2 = Some e2 -> u_size e1 = u_size e2 ->
+  WFB bl2 ->
+  holds st (u_blk e1) (u_off e1) b1 -> holds st (u_blk e2) (u_off e2) b2 ->
+  (forall id' off' b, holdsb bl1 id' off' b <->
+      (id' = u_blk e1 /\ off' = u_off e1 /\ b = with_tag b1 (Some (Z.of_nat s2))) \/
+      (holds st id' off' b /\ ~ (id' = u_blk e1 /\ off' = u_off e1))) ->
+  (forall id' off' b, holdsb bl2 id' off' b <->
+      (id' = u_blk e2 /\ off' = u_off e2 /\ b = with_tag b2 (Some (Z.of_nat s1))) \/
+      (holdsb bl1 id' off' b /\ ~ (id' = u_blk e2 /\ off' = u_off e2))) ->
+  let e1' := mkU (u_blk e2) (u_off e2) (u_size e1) (u_align e1) (u_kind e1) (u_tag e1) (u_temp e1) in
+  let e2' := mkU (u_blk e1) (u_off e1) (u_size e2) (u_align e2) (u_kind e2) (u_tag e2) (u_temp e2) in
+  WF (set_blocks (set_entry (set_entry st s1 (Some e1')) s2 (Some e2')) bl2).
+Proof.
+  intros HW Hne He1 He2 Hsz HB2 Hb1 Hb2 Hc1 Hc2 e1' e2'.
+  set (st' := set_blocks (set_entry (set_entry st s1 (Some e1')) s2 (Some e2')) bl2).
+  assert (Hlt1 : (s1 < length (d_table st))%nat) by (eapply entry_lt; eauto).
+  assert (Hlt2 : (s2 < length (d_table st))%nat) by (eapply entry_lt; eauto).
+  assert (Hent1 : entry st' s1 = Some e1').
+  { unfold st'. change (entry (set_entry (set_entry st s1 (Some e1')) s2 (Some e2')) s1 = Some e1').
+    rewrite entry_set_other by auto. apply entry_set_same. exact Hlt1. }
+  assert (Hent2 : entry st' s2 = Some e2').
+  { unfold st'. change (entry (set_entry (set_entry st s1 (Some e1')) s2 (Some e2')) s2 = Some e2').
+    apply entry_set_same. cbn. rewrite update_nth_length. exact Hlt2. }
+  assert (Hent3 : forall s, s <> s1 -> s <> s2 -> entry st' s = entry st s).
+  { intros s H1 H2. unfold st'. change (entry (set_entry (set_entry st s1 (Some e1')) s2 (Some e2')) s = entry st s).
+    rewrite entry_set_other by auto. apply entry_set_other. auto. }
+  assert (HL : ~ (u_blk e2 = u_blk e1 /\ u_off e2 = u_off e1)).
+  { intros (A & B). apply Hne. eapply (wf_inj _ HW); eauto. }
+  destruct (wf_own _ HW _ _ He1) as ((b1' & Hb1' & Hs1 & _) & Hpa1 & Hsz1).
+  destruct (wf_own _ HW _ _ He2) as ((b2' & Hb2' & Hs2 & _) & Hpa2 & Hsz2).
+  pose proof (holdsb_fun _ _ _ _ _ (wf_b _ HW) Hb1 Hb1') as <-.
+  pose proof (holdsb_fun _ _ _ _ _ (wf_b _ HW) Hb2 Hb2') as <-.
+  (* every allocation object of st' sits where one of st sat: the exchange permutes s1 and s2 *)
+  assert (Horig : forall s e, entry st' s = Some e ->
+            exists s0 e0, entry st s0 = Some e0 /\ u_blk e = u_blk e0 /\ u_off e = u_off e0 /\
+                          (s = s1 -> s0 = s2) /\ (s = s2 -> s0 = s1) /\ (s <> s1 -> s <> s2 -> s0 = s)).
+  { intros s e He. destruct (Nat.eq_dec s s1) as [->|N1]; [|destruct (Nat.eq_dec s s2) as [->|N2]].
+    - rewrite Hent1 in He. injection He as <-. exists s2, e2. cbn. repeat split; auto; congruence.
+    - rewrite Hent2 in He. injection He as <-. exists s1, e1. cbn. repeat split; auto; congruence.
+    - rewrite Hent3 in He by auto. exists s, e. repeat split; auto; congruence. }
+  constructor.
+  - exact HB2.
+  - intros s e He. destruct (Nat.eq_dec s s1) as [->|N1]; [|destruct (Nat.eq_dec s s2) as [->|N2]].
+    + rewrite Hent1 in He. injection He as <-. cbn [e1' u_blk u_off u_size u_align]. split; [|auto].
+      exists (with_tag b2 (Some (Z.of_nat s1))). split; [|split].
+      * unfold holds, st'; cbn [set_blocks d_blocks]. apply Hc2. left. auto.
+      * cbn. congruence.
+      * left. reflexivity.
+    + rewrite Hent2 in He. injection He as <-. cbn [e2' u_blk u_off u_size u_align]. split; [|auto].
+      exists (with_tag b1 (Some (Z.of_nat s2))). split; [|split].
+      * unfold holds, st'; cbn [set_blocks d_blocks]. apply Hc2. right. split.
+        -- apply Hc1. left. auto.
+        -- intros (A & B). apply HL. auto.
+      * cbn. congruence.
+      * left. reflexivity.
+    + rewrite Hent3 in He by auto. destruct (wf_own _ HW _ _ He) as ((b & Hh & R) & P). split; [|exact P].
+      exists b. split; [|exact R]. unfold holds, st'; cbn [set_blocks d_blocks]. apply Hc2. right. split.
+      * apply Hc1. right. split; [exact Hh|]. intros (A & B). apply N1. eapply (wf_inj _ HW); eauto.
+      * intros (A & B). apply N2. eapply (wf_inj _ HW); eauto.
+  - intros id' off' b Hh. unfold holds, st' in Hh; cbn [set_blocks d_blocks] in Hh. apply Hc2 in Hh.
+    destruct Hh as [(-> & -> & _)|(Hh & N2)].
+    + exists s1, e1'. cbn. auto.
+    + apply Hc1 in Hh. destruct Hh as [(-> & -> & _)|(Hh & N1)].
+      * exists s2, e2'. cbn. auto.
+      * destruct (wf_owned _ HW _ _ _ Hh) as (s & e & He & A & B). exists s, e. split; [|auto].
+        rewrite Hent3; [exact He| |].
+        -- intros ->. rewrite He1 in He. injection He as <-. apply N1. auto.
+        -- intros ->. rewrite He2 in He. injection He as <-. apply N2. auto.
+  - intros sa sb ea eb Ha Hb Hblk Hoff.
+    destruct (Horig _ _ Ha) as (a0 & ea0 & A1 & A2 & A3 & A4 & A5 & A6).
+    destruct (Horig _ _ Hb) as (b0 & eb0 & B1 & B2 & B3 & B4 & B5 & B6).
+    assert (H0 : a0 = b0) by (eapply (wf_inj _ HW); eauto; congruence).
+    destruct (Nat.eq_dec sa s1) as [->|Na1]; [|destruct (Nat.eq_dec sa s2) as [->|Na2]];
+      (destruct (Nat.eq_dec sb s1) as [->|Nb1]; [|destruct (Nat.eq_dec sb s2) as [->|Nb2]]);
+      try reflexivity;
+      repeat match goal with
+             | H : ?x = ?x -> _ |- _ => specialize (H eq_refl)
+             | H : ?x <> ?y -> _, N : ?x <> ?y |- _ => specialize (H N)
+             end; try congruence.
+Qed.
+
+(* ------------------------------------------------------------------ the operation handler *)
+
+Definition same_frame (st st' : dstate) : Prop :=
+  map fst (d_blocks st') = map fst (d_blocks st) /\ d_sentinel st' = d_sentinel st /\
+  length (d_table st') = length (d_table st).
+
+Lemma same_frame_trans a b c : same_frame a b -> same_frame b c -> same_frame a c.
+Proof. intros (A1 & A2 & A3) (B1 & B2 & B3). unfold same_frame. repeat split; congruence. Qed.
+
+(* what one completed move does to the allocation objects; d: 0 copy, 1 ignore, 2 destroy *)
+Definition move_effect (d : Z) (m : move) (st st' : dstate) : Prop :=
+  same_frame st st' /\
+  entry st' (m_tmp m) = None /\
+  (forall s, s <> m_src m -> s <> m_tmp m -> entry st' s = entry st s) /\
+  (d = 1 -> entry st' (m_src m) = entry st (m_src m)) /\
+  (d = 2 -> entry st' (m_src m) = None) /\
+  (d = 0 -> exists es, entry st (m_src m) = Some es /\
+     entry st' (m_src m) = Some (mkU (m_dstblk m) (m_dstoff m) (u_size es) (u_align es) (u_kind es) (u_tag es) (u_temp es))).
+
+Lemma bind_k_ok r f st' : bind_k r f = (st', ROk) -> snd r = ROk /\ f (fst r) = (st', ROk).
+Proof.
+  unfold bind_k. destruct r as [st1 k]. cbn [fst snd]. destruct k; intros H; try (injection H as _ H; discriminate).
+  split; [reflexivity|exact H].
+Qed.
+
+Lemma handler_move_spec st m d st' :
+  WF st -> reserved st m -> (d = 0 \/ d = 1 \/ d = 2) -> handler_move st m d = (st', ROk) ->
+  WF st' /\ move_effect d m st st'.
+Proof.
+  intros HW ((es & S1 & S2 & S3 & S4 & S5) & (et & T1 & T2 & T3 & T4 & T5)) Hd.
+  assert (Hne : m_src m <> m_tmp m).
+  { intros Heq. rewrite Heq in S1. rewrite S1 in T1. injection T1 as <-. congruence. }
+  unfold handler_move. rewrite S1, T1.
+  destruct (d =? 1) eqn:E1.
+  { (* ignore *)
+    apply Z.eqb_eq in E1. subst d. intros Hf.
+    destruct (free_slot_ok _ _ _ HW Hf) as (HW' & Hn & Hoth & F1 & F2 & F3).
+    split; [exact HW'|]. split; [repeat split; auto|]. split; [exact Hn|]. split; [intros s A B; apply Hoth; auto|].
+    split; [intros _; apply Hoth; auto|]. split; intros; lia. }
+  destruct (d =? 2) eqn:E2.
+  { (* destroy *)
+    apply Z.eqb_eq in E2. subst d. intros Hb. apply bind_k_ok in Hb. destruct Hb as (Hk & Hf2).
+    destruct (free_slot st (m_src m)) as [st1 k1] eqn:Hf1. cbn [fst snd] in *. subst k1.
+    destruct (free_slot_ok _ _ _ HW Hf1) as (HW1 & Hn1 & Hoth1 & A1 & A2 & A3).
+    destruct (free_slot_ok _ _ _ HW1 Hf2) as (HW2 & Hn2 & Hoth2 & B1 & B2 & B3).
+    split; [exact HW2|]. split; [unfold same_frame; repeat split; congruence|]. split; [exact Hn2|].
+    split; [intros s A B; rewrite Hoth2, Hoth1 by auto; reflexivity|].
+    split; [intros; lia|]. split; [intros _; rewrite Hoth2 by auto; exact Hn1|intros; lia]. }
+  (* copy *)
+  assert (d = 0) by (apply Z.eqb_neq in E1, E2; lia). subst d. clear E1 E2 Hd.
+  intros Hb. apply bind_k_ok in Hb. destruct Hb as (Hk1 & Hb).
+  destruct (set_ud st (u_blk es) (u_off es) (Some (Z.of_nat (m_tmp m)))) as [st1 k1] eqn:Hu1. cbn [fst snd] in *. subst k1.
+  destruct (set_ud_ok _ _ _ _ _ (wf_b _ HW) Hu1) as (b1 & Hh1 & HB1 & Hst1 & Hids1 & Hc1).
+  set (es' := mkU (u_blk et) (u_off et) (u_size es) (u_align es) (u_kind es) (u_tag es) (u_temp es)) in *.
+  set (et' := mkU (u_blk es) (u_off es) (u_size et) (u_align et) (u_kind et) (u_tag et) (u_temp et)) in *.
+  set (st2 := set_entry (set_entry st1 (m_src m) (Some es')) (m_tmp m) (Some et')) in *.
+  apply bind_k_ok in Hb. destruct Hb as (Hk3 & Hf).
+  destruct (set_ud st2 (u_blk es') (u_off es') (Some (Z.of_nat (m_src m)))) as [st3 k3] eqn:Hu3. cbn [fst snd] in *. subst k3.
+  assert (HB2 : WFB (d_blocks st2)) by exact HB1.
+  destruct (set_ud_ok _ _ _ _ _ HB2 Hu3) as (b2 & Hh2 & HB3 & Hst3 & Hids3 & Hc3).
+  cbn [es' u_blk u_off] in Hh2, Hc3.
+  assert (HL : ~ (u_blk et = u_blk es /\ u_off et = u_off es)).
+  { intros (A & B). apply Hne. eapply (wf_inj _ HW); eauto. }
+  assert (Hh2' : holds st (u_blk et) (u_off et) b2).
+  { change (holds st1 (u_blk et) (u_off et) b2) in Hh2. apply Hc1 in Hh2.
+    destruct Hh2 as [(A & B & _)|(Hh & _)]; [exfalso; apply HL; auto|exact Hh]. }
+  assert (HW3 : WF st3).
+  { rewrite Hst3. unfold st2. rewrite Hst1.
+    change (WF (set_blocks (set_entry (set_entry st (m_src m) (Some es')) (m_tmp m) (Some et')) (d_blocks st3))).
+    eapply (wf_exchange st (d_blocks st1) (d_blocks st3) (m_src m) (m_tmp m) es et b1 b2); eauto; try congruence. }
+  assert (Hlt1 : (m_src m < length (d_table st))%nat) by (eapply entry_lt; eauto).
+  assert (Hlt2 : (m_tmp m < length (d_table st))%nat) by (eapply entry_lt; eauto).
+  assert (Htab3 : d_table st3 = d_table st2) by (rewrite Hst3; reflexivity).
+  assert (Htab1 : d_table st1 = d_table st) by (rewrite Hst1; reflexivity).
+  assert (Hent_src : entry st3 (m_src m) = Some es').
+  { unfold entry. rewrite Htab3. unfold st2. cbn [set_entry set_table d_table].
+    rewrite nth_update_other by auto. rewrite nth_update_same by (rewrite Htab1; exact Hlt1).
+    destruct (nth_error (d_table st1) (m_src m)) eqn:En; [reflexivity|].
+    apply nth_error_None in En. rewrite Htab1 in En. lia. }
+  assert (Hent_oth : forall s, s <> m_src m -> s <> m_tmp m -> entry st3 s = entry st s).
+  { intros s A B. unfold entry. rewrite Htab3. unfold st2. cbn [set_entry set_table d_table].
+    rewrite !nth_update_other by auto. rewrite Htab1. reflexivity. }
+  destruct (free_slot_ok _ _ _ HW3 Hf) as (HW' & Hn & Hoth & F1 & F2 & F3).
+  split; [exact HW'|].
+  split.
+  { unfold same_frame. split; [|split].
+    - rewrite F1, Hids3. unfold st2. cbn [set_entry set_table d_blocks]. exact Hids1.
+    - rewrite F2, Hst3. cbn. rewrite Hst1. reflexivity.
+    - rewrite F3, Htab3. unfold st2. cbn [set_entry set_table d_table]. rewrite !update_nth_length, Htab1. reflexivity. }
+  split; [exact Hn|]. split; [intros s A B; rewrite Hoth by auto; apply Hent_oth; auto|].
+  split; [intros; lia|]. split; [intros; lia|]. intros _. exists es. split; [exact S1|].
+  rewrite Hoth by auto. rewrite Hent_src. unfold es'. rewrite T3, T4. reflexivity.
+Qed.
+
+(* ------------------------------------------------------------------ the per-move loop *)
+
+Lemma norm_decision_cases d : norm_decision d = 0 \/ norm_decision d = 1 \/ norm_decision d = 2.
+Proof.
+  unfold norm_decision. destruct (d =? 1) eqn:E1; [apply Z.eqb_eq in E1; cbn; auto|].
+  destruct (d =? 2) eqn:E2; [apply Z.eqb_eq in E2; cbn; auto|]. cbn. auto.
+Qed.
+
+(* the moves decided Copy *)
+Fixpoint copies (ms : list move) (ds : list Z) : list move :=
+  match ms with
+  | [] => []
+  | m :: r => if norm_decision (hd 0 ds) =? 0 then m :: copies r (tl ds) else copies r (tl ds)
+  end.
+
+Definition moved_to (es : uent) (m : move) : uent :=
+  mkU (m_dstblk m) (m_dstoff m) (u_size es) (u_align es) (u_kind es) (u_tag es) (u_temp es).
+
+(* the outcome of every move of the pass, st0 = before BlockListCompletePass, st' = after *)
+Fixpoint outcomes (st0 st' : dstate) (ms : list move) (ds : list Z) : Prop :=
+  match ms with
+  | [] => True
+  | m :: r =>
+    let d := norm_decision (hd 0 ds) in
+    (d = 0 -> exists es, entry st0 (m_src m) = Some es /\ entry st' (m_src m) = Some (moved_to es m)) /\
+    (d = 1 -> entry st' (m_src m) = entry st0 (m_src m)) /\
+    (d = 2 -> entry st' (m_src m) = None) /\
+    entry st' (m_tmp m) = None /\
+    outcomes st0 st' r (tl ds)
+  end.
+
+Lemma outcomes_base a b st' ms ds :
+  (forall m, In m ms -> entry a (m_src m) = entry b (m_src m)) -> outcomes a st' ms ds -> outcomes b st' ms ds.
+Proof.
+  revert ds; induction ms as [|m r IH]; intros ds Heq; cbn [outcomes]; [auto|].
+  intros (A & B & C & D & E). rewrite <- (Heq m) by (left; reflexivity).
+  split; [exact A|]. split; [exact B|]. split; [exact C|]. split; [exact D|].
+  apply IH; [|exact E]. intros m' Hm'. apply Heq. right. exact Hm'.
+Qed.
+
+Lemma complete_moves_err ms : forall cp ds cp' pk,
+  cp_err cp = true -> complete_moves cp ms ds = (cp', pk) -> cp_err cp' = true.
+Proof.
+  induction ms as [|m r IH]; intros cp ds cp' pk He; cbn [complete_moves].
+  - intros H; injection H as <- _. exact He.
+  - destruct (blocks_stats (d_blocks (cp_st cp))) as [pc pb].
+    destruct (handler_move (cp_st cp) m (norm_decision (hd 0 ds))) as [st1 k].
+    destruct k.
+    + destruct (blocks_stats (d_blocks st1)) as [ac ab]. apply IH. exact He.
+    + apply IH. reflexivity.
+    + apply IH. reflexivity.
+    + intros H; injection H as <- _. exact He.
+Qed.
+
+Lemma in_app_l {A} (x : A) a b : In x a -> In x (a ++ b).
+Proof. intros. apply in_or_app. auto. Qed.
+Lemma in_app_r {A} (x : A) a b : In x b -> In x (a ++ b).
+Proof. intros. apply in_or_app. auto. Qed.
+
+Lemma complete_moves_ok ms : forall cp ds cp',
+  WF (cp_st cp) -> Forall (reserved (cp_st cp)) ms -> NoDup (map m_src ms ++ map m_tmp ms) ->
+  complete_moves cp ms ds = (cp', false) -> cp_err cp' = false ->
+  WF (cp_st cp') /\ same_frame (cp_st cp) (cp_st cp') /\
+  (forall s, ~ In s (map m_src ms) -> ~ In s (map m_tmp ms) -> entry (cp_st cp') s = entry (cp_st cp) s) /\
+  outcomes (cp_st cp) (cp_st cp') ms ds /\
+  p_max_bytes (cp_pass cp') = p_max_bytes (cp_pass cp) /\ p_max_allocs (cp_pass cp') = p_max_allocs (cp_pass cp) /\
+  ps_allocs_moved (p_stats (cp_pass cp')) = ps_allocs_moved (p_stats (cp_pass cp)) - (zlen ms - zlen (copies ms ds)) /\
+  ps_bytes_moved (p_stats (cp_pass cp')) =
+    ps_bytes_moved (p_stats (cp_pass cp)) - (zsum (map m_size ms) - zsum (map m_size (copies ms ds))) /\
+  (copies ms ds = ms -> cp_imm cp' = cp_imm cp).
+Proof.
+  induction ms as [|m r IH]; intros cp ds cp' HW Hres Hnd; cbn [complete_moves].
+  - intros H _; injection H as <-. unfold same_frame, zlen.
+    cbn [map zsum length copies Z.of_nat outcomes].
+    split; [exact HW|]. split; [repeat split|]. split; [reflexivity|]. split; [exact I|].
+    split; [reflexivity|]. split; [reflexivity|]. split; [lia|]. split; [lia|reflexivity].
+  - destruct (blocks_stats (d_blocks (cp_st cp))) as [pc pb].
+    set (d := norm_decision (hd 0 ds)).
+    destruct (handler_move (cp_st cp) m d) as [st1 k] eqn:Hh.
+    inversion Hres as [|? ? Hrm Hrr]; subst.
+    cbn [map] in Hnd.
+    assert (Hnd_r : NoDup (map m_src r ++ map m_tmp r)).
+    { inversion Hnd as [|? ? _ Hn]; subst. apply NoDup_remove_1 in Hn. exact Hn. }
+    assert (Hsrc_fresh : ~ In (m_src m) (map m_src r) /\ ~ In (m_src m) (map m_tmp r)).
+    { inversion Hnd as [|? ? Hn _]; subst. split; intros Hin; apply Hn.
+      - apply in_app_l. exact Hin.
+      - apply in_app_r. right. exact Hin. }
+    assert (Htmp_fresh : ~ In (m_tmp m) (map m_src r) /\ ~ In (m_tmp m) (map m_tmp r)).
+    { inversion Hnd as [|? ? _ Hn]; subst. apply NoDup_remove_2 in Hn. split; intros Hin; apply Hn.
+      - apply in_app_l. exact Hin.
+      - apply in_app_r. exact Hin. }
+    assert (Hne : m_src m <> m_tmp m).
+    { inversion Hnd as [|? ? Hn _]; subst. intros Heq. apply Hn. apply in_app_r. left. auto. }
+    destruct k.
+    + (* the handler succeeded *)
+      destruct (blocks_stats (d_blocks st1)) as [ac ab].
+      destruct (handler_move_spec _ _ _ _ HW Hrm (norm_decision_cases _) Hh) as (HW1 & Hfr & Htn & Hoth & E1 & E2 & E0).
+      set (cp1 := mkCP st1 _ _ _).
+      intros Hcm Herr.
+      assert (Hres1 : Forall (reserved (cp_st cp1)) r).
+      { cbn [cp1 cp_st]. apply Forall_forall. intros m' Hm'. rewrite Forall_forall in Hrr. specialize (Hrr _ Hm').
+        assert (Hs' : m_src m' <> m_src m /\ m_src m' <> m_tmp m).
+        { split; intros Heq.
+          - apply (proj1 Hsrc_fresh). rewrite <- Heq. apply in_map. exact Hm'.
+          - apply (proj1 Htmp_fresh). rewrite <- Heq. apply in_map. exact Hm'. }
+        assert (Ht' : m_tmp m' <> m_src m /\ m_tmp m' <> m_tmp m).
+        { split; intros Heq.
+          - apply (proj2 Hsrc_fresh). rewrite <- Heq. apply in_map. exact Hm'.
+          - apply (proj2 Htmp_fresh). rewrite <- Heq. apply in_map. exact Hm'. }
+        destruct Hrr as ((es & S1 & S) & (et & T1 & T)). split.
+        - exists es. rewrite Hoth by tauto. auto.
+        - exists et. rewrite Hoth by tauto. auto. }
+      destruct (IH cp1 (tl ds) cp' HW1 Hres1 Hnd_r Hcm Herr) as (HW' & Hfr' & Hun & Hout & M1 & M2 & A & B & Himm).
+      cbn [cp1 cp_st cp_pass cp_imm set_stats p_max_bytes p_max_allocs p_stats] in *.
+      split; [exact HW'|]. split; [eapply same_frame_trans; eauto|].
+      split.
+      { intros s N1 N2. cbn [map In] in N1, N2. rewrite Hun by tauto. apply Hoth; intuition congruence. }
+      split.
+      { cbn [outcomes]. fold d.
+        rewrite (Hun (m_src m)) by tauto. rewrite (Hun (m_tmp m)) by tauto.
+        split; [exact E0|]. split; [exact E1|]. split; [exact E2|]. split; [exact Htn|].
+        eapply outcomes_base; [|exact Hout]. intros m' Hm'. apply Hoth.
+        - intros Heq. apply (proj1 Hsrc_fresh). rewrite <- Heq. apply in_map. exact Hm'.
+        - intros Heq. apply (proj1 Htmp_fresh). rewrite <- Heq. apply in_map. exact Hm'. }
+      split; [exact M1|]. split; [exact M2|].
+      cbn [copies]. fold d. unfold zlen in *. cbn [map zsum length].
+      destruct (norm_decision_cases (hd 0 ds)) as [Hd|[Hd|Hd]]; fold d in Hd; rewrite Hd in *; cbn [Z.eqb Pos.eqb orb andb] in *.
+      * cbn [ps_allocs_moved ps_bytes_moved map zsum length] in *.
+        split; [rewrite A; lia|]. split; [rewrite B; lia|].
+        intros Hc. injection Hc as Hc. rewrite (Himm Hc). reflexivity.
+      * cbn [ps_allocs_moved ps_bytes_moved] in *. split; [rewrite A; lia|]. split; [rewrite B; lia|].
+        intros Hc. exfalso.
+        assert (Hl : (length (copies r (tl ds)) <= length r)%nat).
+        { clear. generalize (tl ds). induction r as [|x r IHr]; intros l; cbn; [lia|].
+          destruct (norm_decision (hd 0 l) =? 0); cbn; specialize (IHr (tl l)); lia. }
+        rewrite Hc in Hl. cbn in Hl. lia.
+      * cbn [ps_allocs_moved ps_bytes_moved] in *. split; [rewrite A; lia|]. split; [rewrite B; lia|].
+        intros Hc. exfalso.
+        assert (Hl : (length (copies r (tl ds)) <= length r)%nat).
+        { clear. generalize (tl ds). induction r as [|x r IHr]; intros l; cbn; [lia|].
+          destruct (norm_decision (hd 0 l) =? 0); cbn; specialize (IHr (tl l)); lia. }
+        rewrite Hc in Hl. cbn in Hl. lia.
+    + intros Hcm Herr. apply complete_moves_err in Hcm; [congruence|reflexivity].
+    + intros Hcm Herr. apply complete_moves_err in Hcm; [congruence|reflexivity].
+    + intros H; injection H as _ H; discriminate.
+Qed.
+
+(* ------------------------------------------------------------------ swapImmovableBlocks only permutes the list *)
+
+From Coq Require Import Permutation.
+
+Lemma perm_update_head {A} (l : list A) j b x :
+  nth_error l j = Some b -> Permutation (b :: update_nth j (fun _ => x) l) (x :: l).
+Proof.
+  revert j; induction l as [|y l IH]; intros j Hj; [destruct j; discriminate|].
+  destruct j as [|j]; cbn in *.
+  - injection Hj as ->. apply perm_swap.
+  - eapply perm_trans; [apply perm_swap|]. eapply perm_trans; [apply perm_skip; apply IH; exact Hj|]. apply perm_swap.
+Qed.
+
+Lemma swap_nth_perm {A} (l : list A) : forall i j, Permutation (swap_nth i j l) l.
+Proof.
+  induction l as [|x l IH]; intros i j; unfold swap_nth.
+  - destruct i; cbn; apply Permutation_refl.
+  - destruct i as [|i]; destruct j as [|j]; cbn [nth_error].
+    + cbn. apply Permutation_refl.
+    + destruct (nth_error l j) as [b|] eqn:Hj; [|apply Permutation_refl]. cbn [update_nth].
+      apply perm_update_head. exact Hj.
+    + destruct (nth_error l i) as [a|] eqn:Hi; [|apply Permutation_refl]. cbn [update_nth].
+      apply perm_update_head. exact Hi.
+    + specialize (IH i j). unfold swap_nth in IH.
+      destruct (nth_error l i) as [a|]; [|apply Permutation_refl].
+      destruct (nth_error l j) as [b|]; [|apply Permutation_refl].
+      cbn [update_nth]. apply perm_skip. exact IH.
+Qed.
+
+Lemma swap_all_perm ids : forall bl immc acc bl' immc' sws,
+  swap_all bl immc ids acc = (bl', immc', sws) -> Permutation bl' bl.
+Proof.
+  induction ids as [|id r IH]; intros bl immc acc bl' immc' sws; cbn [swap_all].
+  - intros H; injection H as <- _ _. apply Permutation_refl.
+  - unfold swap_immovable. destruct (index_from id (skipn (Z.to_nat immc) bl) immc) as [i|].
+    + intros H. apply IH in H. eapply perm_trans; [exact H|apply swap_nth_perm].
+    + apply IH.
+Qed.
+
+Lemma swap_all_nil bl immc acc : swap_all bl immc [] acc = (bl, immc, acc).
+Proof. reflexivity. Qed.
+
+Lemma find_id_in_iff bl id t : NoDup (map fst bl) -> (find_id id bl = Some t <-> In (id, t) bl).
+Proof.
+  induction bl as [|[i t0] r IH]; cbn; intros Hnd; [split; [discriminate|tauto]|].
+  inversion Hnd as [|? ? Hn Hr]; subst. destruct (i =? id) eqn:E.
+  - apply Z.eqb_eq in E. subst i. split.
+    + intros H; injection H as <-. left. reflexivity.
+    + intros [H|H]; [injection H as <-; reflexivity|]. exfalso. apply Hn. apply (in_map fst) in H. exact H.
+  - apply Z.eqb_neq in E. rewrite (IH Hr). split; [auto|]. intros [H|H]; [injection H as -> _; congruence|exact H].
+Qed.
+
+Lemma find_id_perm bl bl' id : NoDup (map fst bl) -> Permutation bl' bl -> find_id id bl' = find_id id bl.
+Proof.
+  intros Hnd Hp.
+  assert (Hnd' : NoDup (map fst bl')).
+  { eapply Permutation_NoDup; [apply Permutation_map; apply Permutation_sym; exact Hp|exact Hnd]. }
+  destruct (find_id id bl) as [t|] eqn:E.
+  - apply find_id_in_iff; [exact Hnd'|]. apply find_id_in_iff in E; [|exact Hnd].
+    eapply Permutation_in; [apply Permutation_sym; exact Hp|exact E].
+  - destruct (find_id id bl') as [t|] eqn:E'; [|reflexivity].
+    apply find_id_in_iff in E'; [|exact Hnd']. eapply Permutation_in in E'; [|exact Hp].
+    apply find_id_in_iff in E'; [|exact Hnd]. congruence.
+Qed.
+
+Lemma wf_perm st bl' : WF st -> Permutation bl' (d_blocks st) -> WF (set_blocks st bl').
+Proof.
+  intros HW Hp. pose proof (wb_ids _ (wf_b _ HW)) as Hnd.
+  apply wf_same_blocks; [exact HW| |].
+  - constructor.
+    + eapply Permutation_NoDup; [apply Permutation_map; apply Permutation_sym; exact Hp|exact Hnd].
+    + intros id t. rewrite (find_id_perm _ _ id Hnd Hp). apply (wb_tinv _ (wf_b _ HW)).
+  - intros id' off' b. unfold holds, holdsb. rewrite (find_id_perm _ _ id' Hnd Hp). tauto.
+Qed.
+
+(* ------------------------------------------------------------------ BlockListCompletePass *)
+
+Lemma outcomes_blocks st0 x bl ms ds : outcomes st0 (set_blocks x bl) ms ds <-> outcomes st0 x ms ds.
+Proof.
+  revert ds; induction ms as [|m r IH]; intros ds; cbn [outcomes]; [tauto|].
+  rewrite IH. change (entry (set_blocks x bl) (m_src m)) with (entry x (m_src m)).
+  change (entry (set_blocks x bl) (m_tmp m)) with (entry x (m_tmp m)). tauto.
+Qed.
+
+Section CompleteTheorems.
+  Variables (st : dstate) (c : dctx) (p : pass) (ds ord : list Z).
+  Hypothesis HW : WF st.
+  Hypothesis Hres : Forall (reserved st) (c_moves c).
+  Hypothesis Hnd : NoDup (map m_src (c_moves c) ++ map m_tmp (c_moves c)).
+
+  Let r := complete_pass st c p ds ord.
+  Let ms := c_moves c.
+
+  Hypothesis Hok : r_kind r = ROk.      (* every handler call succeeded *)
+
+  Lemma complete_pass_inv :
+    exists cp, complete_moves (mkCP st p [] false) ms ds = (cp, false) /\ cp_err cp = false /\
+               d_table (r_st r) = d_table (cp_st cp) /\ Permutation (d_blocks (r_st r)) (d_blocks (cp_st cp)) /\
+               d_sentinel (r_st r) = d_sentinel (cp_st cp) /\ r_pass r = cp_pass cp /\
+               c_moves (r_ctx r) = [] /\ c_algo (r_ctx r) = c_algo c /\
+               (cp_imm cp = [] -> r_st r = cp_st cp /\ c_immovable (r_ctx r) = c_immovable c).
+  Proof.
+    unfold r, complete_pass in *. fold ms in Hok |- *.
+    destruct (complete_moves (mkCP st p [] false) ms ds) as [cp pk] eqn:Hcm.
+    destruct pk; [cbn in Hok; discriminate|].
+    destruct (swap_all (d_blocks (cp_st cp)) (c_immovable c) (swap_order ord (cp_imm cp)) []) as [[bl immc] sws] eqn:Hsw.
+    cbn [r_kind r_st r_pass r_ctx] in *. exists cp. split; [reflexivity|].
+    split; [destruct (cp_err cp); [discriminate|reflexivity]|].
+    split; [reflexivity|]. split; [eapply swap_all_perm; eauto|]. split; [reflexivity|]. split; [reflexivity|].
+    split; [reflexivity|]. split; [reflexivity|].
+    intros Himm. rewrite Himm in Hsw. unfold swap_order in Hsw.
+    assert (Hnil : filter (fun x => mem_zb x []) (dedup ord []) = []).
+    { generalize (dedup ord []). intros l. induction l; cbn; auto. }
+    rewrite Hnil in Hsw. cbn in Hsw. injection Hsw as <- <- _. split; [destruct (cp_st cp); reflexivity|reflexivity].
+  Qed.
+
+  Lemma complete_pass_moves :
+    exists cp, complete_moves (mkCP st p [] false) ms ds = (cp, false) /\ cp_err cp = false /\
+      WF (cp_st cp) /\ same_frame st (cp_st cp) /\
+      (forall s, ~ In s (map m_src ms) -> ~ In s (map m_tmp ms) -> entry (cp_st cp) s = entry st s) /\
+      outcomes st (cp_st cp) ms ds /\
+      p_max_bytes (cp_pass cp) = p_max_bytes p /\ p_max_allocs (cp_pass cp) = p_max_allocs p /\
+      ps_allocs_moved (p_stats (cp_pass cp)) = ps_allocs_moved (p_stats p) - (zlen ms - zlen (copies ms ds)) /\
+      ps_bytes_moved (p_stats (cp_pass cp)) =
+        ps_bytes_moved (p_stats p) - (zsum (map m_size ms) - zsum (map m_size (copies ms ds))) /\
+      (copies ms ds = ms -> cp_imm cp = []).
+  Proof.
+    destruct complete_pass_inv as (cp & Hcm & Herr & _).
+    exists cp. split; [exact Hcm|]. split; [exact Herr|].
+    exact (complete_moves_ok ms (mkCP st p [] false) ds cp HW Hres Hnd Hcm Herr).
+  Qed.
+
+  (* C07: when the pass is complete the invariants of the block list hold again; the blocks are
+     the same blocks (possibly reordered by swapImmovableBlocks), no allocation object was added *)
+  Theorem complete_pass_wf :
+    WF (r_st r) /\ Permutation (map fst (d_blocks (r_st r))) (map fst (d_blocks st)) /\
+    d_sentinel (r_st r) = d_sentinel st /\ length (d_table (r_st r)) = length (d_table st) /\
+    c_moves (r_ctx r) = [].
+  Proof.
+    destruct complete_pass_inv as (cp & Hcm & _ & Ht & Hp & Hs & _ & Hmv & _).
+    destruct complete_pass_moves as (cp' & Hcm' & _ & HW' & (F1 & F2 & F3) & _).
+    rewrite Hcm in Hcm'. injection Hcm' as <-.
+    assert (Heq : r_st r = set_blocks (cp_st cp) (d_blocks (r_st r))).
+    { destruct (r_st r) as [b t s]. cbn in *. unfold set_blocks. cbn. congruence. }
+    split; [rewrite Heq; apply wf_perm; auto|]. split; [rewrite <- F1; apply Permutation_map; exact Hp|].
+    split; [congruence|]. split; [rewrite Ht; exact F3|exact Hmv].
+  Qed.
+
+  (* C07 (6): the outcome of every move: Copy -> the slot is now at the proposed destination,
+     Ignore -> unchanged, Destroy -> gone (size, alignment, kind, tag of a survivor unchanged: see
+     moved_to); every temporary is gone; slots not named in any move are untouched *)
+  Theorem move_outcome :
+    outcomes st (r_st r) ms ds /\
+    (forall s, ~ In s (map m_src ms) -> ~ In s (map m_tmp ms) -> entry (r_st r) s = entry st s).
+  Proof.
+    destruct complete_pass_inv as (cp & Hcm & _ & Ht & _).
+    destruct complete_pass_moves as (cp' & Hcm' & _ & _ & _ & Hun & Hout & _).
+    rewrite Hcm in Hcm'. injection Hcm' as <-.
+    assert (Hent : forall s, entry (r_st r) s = entry (cp_st cp) s) by (intros s; unfold entry; rewrite Ht; reflexivity).
+    split.
+    - assert (Heq : r_st r = set_blocks (cp_st cp) (d_blocks (r_st r))).
+      { destruct complete_pass_inv as (cp2 & Hcm2 & _ & Ht2 & _ & Hs2 & _). rewrite Hcm in Hcm2. injection Hcm2 as <-.
+        destruct (r_st r) as [b t s]. cbn in *. unfold set_blocks. cbn. congruence. }
+      rewrite Heq. apply outcomes_blocks. exact Hout.
+    - intros s A B. rewrite Hent. apply Hun; auto.
+  Qed.
+
+  (* C15 (4): after the pass, AllocationsMoved / BytesMoved are the number / bytes of the moves
+     decided Copy (p = the pass as BlockListCollectMoves left it: counters = all proposed moves) *)
+  Theorem stats_match :
+    ps_allocs_moved (p_stats p) = zlen ms -> ps_bytes_moved (p_stats p) = zsum (map m_size ms) ->
+    ps_allocs_moved (p_stats (r_pass r)) = zlen (copies ms ds) /\
+    ps_bytes_moved (p_stats (r_pass r)) = zsum (map m_size (copies ms ds)).
+  Proof.
+    intros Ha Hb. destruct complete_pass_inv as (cp & Hcm & _ & _ & _ & _ & Hp & _).
+    destruct complete_pass_moves as (cp' & Hcm' & _ & _ & _ & _ & _ & _ & _ & A & B & _).
+    rewrite Hcm in Hcm'. injection Hcm' as <-. rewrite Hp, A, B, Ha, Hb. lia.
+  Qed.
+
+  (* a pass in which every move is copied leaves the order of the blocks alone *)
+  Lemma all_copy_no_swap :
+    copies ms ds = ms ->
+    map fst (d_blocks (r_st r)) = map fst (d_blocks st) /\ c_immovable (r_ctx r) = c_immovable c.
+  Proof.
+    intros Hc. destruct complete_pass_inv as (cp & Hcm & _ & _ & _ & _ & _ & _ & _ & Himm).
+    destruct complete_pass_moves as (cp' & Hcm' & _ & _ & (F1 & _) & _ & _ & _ & _ & _ & _ & Hi).
+    rewrite Hcm in Hcm'. injection Hcm' as <-. destruct (Himm (Hi Hc)) as (E1 & E2).
+    rewrite E1. auto.
+  Qed.
+End CompleteTheorems.
